@@ -3,6 +3,7 @@ package main
 // Site obligations (M2) and library call models.
 
 import (
+	"go/token"
 	"fmt"
 	"go/types"
 	"strings"
@@ -21,6 +22,8 @@ type execExtra struct {
 	pendingGuardHeaps []string
 	rangeKeys         map[*ssa.Range]string
 	havocAll          bool
+	curSitePos        token.Pos
+	stepStart         map[*SiteSpec]*State
 	keyFacts          []*Node
 	siteBindings      map[*SiteSpec]int
 	curLoop           *ssa.BasicBlock
@@ -134,12 +137,25 @@ func (e *Exec) siteMatches(ss *SiteSpec, ins ssa.Instruction) bool {
 			return true
 		}
 		return false
+	case "send":
+		// a channel send, alone or as a case of a select
+		switch x := ins.(type) {
+		case *ssa.Send:
+			return true
+		case *ssa.Select:
+			for _, st := range x.States {
+				if st.Dir == types.SendOnly {
+					return true
+				}
+			}
+		}
+		return false
 	case "mapupdate":
 		mu, ok := ins.(*ssa.MapUpdate)
 		if !ok {
 			return false
 		}
-		return mapOperandName(mu.Map) == ss.Target
+		return ss.Target == "*" || mapOperandName(mu.Map) == ss.Target
 	case "store":
 		st, ok := ins.(*ssa.Store)
 		if !ok {
@@ -169,9 +185,19 @@ func (e *Exec) siteMatches(ss *SiteSpec, ins ssa.Instruction) bool {
 }
 
 func (e *Exec) runSiteSpecs(s *State, ins ssa.Instruction, specs []*SiteSpec, before bool) {
+	savedPos := e.curSitePos
+	e.curSitePos = ins.Pos()
+	defer func() { e.curSitePos = savedPos }()
 	for _, ss := range specs {
+		if ss.Step != "" && !before {
+			e.endStep(s, ins, ss)
+			continue
+		}
 		if ss.Before != before {
 			continue
+		}
+		if ss.Step != "" {
+			e.beginStep(s, ins, ss)
 		}
 		extra := map[string]specVar{}
 		// arguments of the call as arg0..argN; results as res / res0..
@@ -237,6 +263,10 @@ func (e *Exec) runSiteSpecs(s *State, ins ssa.Instruction, specs []*SiteSpec, be
 			hs.assume(e.asHyp(func() *Node { return e.evalClauseCur(a, hs, e.oldState(), extra) }))
 		}
 		for _, g := range ss.Ghost {
+			if strings.HasPrefix(g, "forall ") {
+				e.ghostSetAll(s, g, extra)
+				continue
+			}
 			eq := strings.Index(g, "=")
 			name := strings.TrimSpace(g[:eq])
 			n, err := parseSpec(strings.TrimSpace(g[eq+1:]))
@@ -465,6 +495,20 @@ func (e *Exec) initGhostFor(s *State, ref *Node, ptrT types.Type) {
 	}
 	owner, ok := e.v.db.GhostAlias[n.Obj().Name()]
 	if !ok {
+		// ghost fields declared on this struct type itself start at their zero value (nil / false)
+		var key *Node
+		for _, gf := range e.v.db.Ghost {
+			if gf.Owner != n.Obj().Name() || (gf.Type != "ref" && gf.Type != "bool") {
+				continue
+			}
+			if key == nil {
+				key = e.box(s, ref, ptrT)
+			}
+			name := ghostHeapName(gf)
+			sortS := e.ghostHeapSort(gf, "Iface")
+			h := e.heap(s, name, sortS)
+			e.setHeap(s, name, Store(h, key, zeroOfSort(arrayValSort(sortS))), key)
+		}
 		return
 	}
 	key := e.box(s, ref, ptrT)
@@ -676,4 +720,124 @@ func mapOperandName(v ssa.Value) string {
 		}
 	}
 	return v.Name()
+}
+
+// ghostSetAll: bulk ghost assignment  "forall x T :: x.f = <expr over x>"  (the new value of f for
+// every object, computed from the current state).
+func (e *Exec) ghostSetAll(s *State, g string, extra map[string]specVar) {
+	body := strings.TrimPrefix(g, "forall ")
+	sep := strings.Index(body, "::")
+	if sep < 0 {
+		panic(unsupportedErr{"bad bulk ghost assignment " + g})
+	}
+	bf := strings.Fields(body[:sep])
+	asg := strings.TrimSpace(body[sep+2:])
+	eq := strings.Index(asg, "=")
+	if len(bf) != 2 || eq < 0 {
+		panic(unsupportedErr{"bad bulk ghost assignment " + g})
+	}
+	target := strings.TrimSpace(asg[:eq])
+	if !strings.HasPrefix(target, bf[0]+".") {
+		panic(unsupportedErr{"bulk ghost assignment must assign a ghost field of the bound object: " + g})
+	}
+	n, err := parseSpec(strings.TrimSpace(asg[eq+1:]))
+	if err != nil {
+		panic(unsupportedErr{"bad bulk ghost assignment " + g})
+	}
+	vars := map[string]specVar{"$current": {}}
+	for k, v := range extra {
+		vars[k] = v
+	}
+	ctx := &SpecCtx{e: e, st: s, old: e.oldState(), vars: vars, pkg: e.pkgTypes(), current: true, hyp: true}
+	t := ctx.resolveTypeName(bf[1])
+	if t == nil {
+		panic(unsupportedErr{"bulk ghost assignment: unknown type " + bf[1]})
+	}
+	bv := BoundVar(bf[0]+"!sa", RefSort)
+	vars[bf[0]] = specVar{bv, t}
+	gf := e.v.ghostField(t, strings.TrimPrefix(target, bf[0]+"."))
+	if gf == nil {
+		panic(unsupportedErr{"no ghost field " + target})
+	}
+	v, _ := ctx.eval(n)
+	switch x := v.(type) {
+	case *ConstV:
+		v = BigLit(x.V)
+	case nilV:
+		v = IntLit(0)
+	}
+	hn := ghostHeapName(gf)
+	sortS := e.ghostHeapSort(gf, "Iface")
+	_ = e.heap(s, hn, sortS)
+	owner := e.ghostOwner(s, bv, t)
+	nh := TS.Fresh("setall_"+hn, sortS)
+	s.assume(Forall([]*Node{bv}, Eq(Select(nh, owner), v.(*Node))))
+	e.setHeap(s, hn, nh)
+}
+
+// Atomic steps outside the lock. A site "before call f" with `step h` declares the call to be one
+// atomic action on the state guarded by h's monitor (e.g. closing a channel): the guarded state is
+// arbitrary before it (other threads ran; invariants and rely assumed), and after it the monitor's
+// invariants and transitions must hold again — exactly like a Lock…Unlock region around the call.
+func (e *Exec) stepTarget(s *State, ss *SiteSpec) (*Node, types.Type, *Monitor) {
+	n, err := parseSpec(ss.Step)
+	if err != nil {
+		panic(unsupportedErr{"bad step object " + ss.Step})
+	}
+	ctx := &SpecCtx{e: e, st: s, old: s, vars: map[string]specVar{}, pkg: e.pkgTypes()}
+	v, t := ctx.eval(n)
+	obj, ok := v.(*Node)
+	pt, isPtr := t.Underlying().(*types.Pointer)
+	if !ok || !isPtr {
+		panic(unsupportedErr{"step " + ss.Step + ": not a pointer to an object"})
+	}
+	mon := e.v.monitorForType(pt.Elem())
+	if mon == nil {
+		panic(unsupportedErr{"step " + ss.Step + ": no monitor for its type"})
+	}
+	return obj, pt.Elem(), mon
+}
+
+func (e *Exec) beginStep(s *State, ins ssa.Instruction, ss *SiteSpec) {
+	obj, objT, mon := e.stepTarget(s, ss)
+	before := s.clone()
+	e.bumpAlloc(s)
+	e.havocGuarded(s, mon, objT, obj)
+	e.assumeRely(s, before, mon, objT, obj)
+	for _, inv := range mon.Invariants {
+		s.assume(e.asHyp(func() *Node { return e.evalMonitorInv(mon, inv, objT, obj, s) }))
+	}
+	if e.stepStart == nil {
+		e.stepStart = map[*SiteSpec]*State{}
+	}
+	e.stepStart[ss] = s.clone()
+}
+
+func (e *Exec) endStep(s *State, ins ssa.Instruction, ss *SiteSpec) {
+	obj, objT, mon := e.stepTarget(s, ss)
+	if e.quiet == 0 {
+		e.counters["step:"+ss.Label]++
+	}
+	ord := e.counters["step:"+ss.Label]
+	for i, inv := range mon.Invariants {
+		g := e.evalMonitorInv(mon, inv, objT, obj, s)
+		if e.quiet == 0 {
+			e.obls = append(e.obls, &Obligation{Name: fmt.Sprintf("%s/step:%s#%d/invariant#%d", e.funcKey, ss.Label, ord, i+1), Kind: "monitor", Pos: ins.Pos(),
+				Goal: g, Hyp: s.pc, Func: e.funcKey, Text: inv.Text, Props: unionProps(e.props, mon.Props, inv.Props), Mode: e.mode, exec: e})
+		}
+	}
+	if rs := e.stepStart[ss]; rs != nil {
+		for i, tr := range mon.Transitions {
+			vars := map[string]specVar{"s": {obj, types.NewPointer(objT)}, "self": {obj, types.NewPointer(objT)}}
+			cc := calleeCtx{e.v.pkgByPath(mon.PkgPath)}
+			g := cc.evalWith(e, tr, s, rs, vars)
+			if e.quiet == 0 {
+				e.obls = append(e.obls, &Obligation{Name: fmt.Sprintf("%s/step:%s#%d/transition#%d", e.funcKey, ss.Label, ord, i+1), Kind: "monitor", Pos: ins.Pos(),
+					Goal: g, Hyp: s.pc, Func: e.funcKey, Text: tr.Text, Props: unionProps(e.props, mon.Props, tr.Props), Mode: e.mode, exec: e})
+			}
+		}
+	}
+	before := s.clone()
+	e.havocGuarded(s, mon, objT, obj)
+	e.assumeRely(s, before, mon, objT, obj)
 }
